@@ -18,6 +18,7 @@ import Model.Wait
 import Model.Close
 import Model.PipeFacts
 import Model.Retry
+import Model.DevicePlumb
 import Generated.Facts
 import Driver.Machines
 open Model
@@ -107,6 +108,13 @@ def evalStateless (tag : String) (a : List String) : Option (String × String) :
         | none => none
         | some (_, w) => Parse.recv .hdr4 0 w
     some (fmtOpt r, if r.isSome then "returned" else "lost")
+  | "dev.plumb", [a, b, same] =>
+    -- mangos.Device(s1, s2): Model/DevicePlumb.lean (Props.C09.device_joins_exactly_raw_peers)
+    let sock (x : String) : Option DevicePlumb.Sock := match x.splitOn ":" with
+      | [sf, pr, r] => some ⟨natArg sf, natArg pr, if r == "t" then some true else if r == "f" then some false else none⟩
+      | _ => none
+    let r := DevicePlumb.plumb (sock a) (sock b) (same == "same")
+    some (DevicePlumb.render r, if r.isOk then "joined" else "refused")
   | "dial.persist", [_, _] => some ("redials", "persist")   -- an open dialer whose attempt failed, however it failed, tries again (Props.C14)
   | "opt.origin", [check] => some (if check == "true" then "refused" else "admitted", "origin")   -- the option in force is the policy applied
   | "hs.after-rejects", [_, _] => some ("served", "after-rejects")   -- peers whose handshake is rejected do not delay a well-behaved one (C16)
